@@ -470,17 +470,21 @@ def imax (a b : Int) : Int := if a ≥ b then a else b
 def frameOpensStream (s : Stream) (pnum : Int) : Stream :=
   if !s.outopened.isReceived then { s with outopened := .sent pnum } else s
 
+/-- The connection-level clamp of `appendOutFramesLocked`:
+`if end := off+size; end > outmaxsent { end = min(end, outmaxsent+avail); end = max(end, off); size = end-off }`. -/
+def clampSize (off size outmaxsent av : Int) : Int :=
+  if off + size > outmaxsent then imax (imin (off + size) (outmaxsent + av)) off - off else size
+
+/-- `if end > s.outmaxsent { outflow.consume(end - outmaxsent); s.outmaxsent = end }`: (used', outmaxsent'). -/
+def charge (oused outmaxsent e : Int) : Int × Int :=
+  if e > outmaxsent then (consume oused (e - outmaxsent), e) else (oused, outmaxsent)
+
 /-- the STREAM loop of `appendOutFramesLocked`. -/
 def outLoop : Nat → Conn → Stream → Writer → Int → Bool → Conn × Stream × Writer × Bool
   | 0, c, s, w, _, _ => (c, s, w, true)
   | fuel + 1, c, s, w, pnum, pto =>
     let (off, size) := dataToSend (imin s.out.start s.outwin) (imin s.outflushed s.outwin) s.outunsent s.outacked pto
-    let size :=
-      if off + size > s.outmaxsent then
-        let e := imin (off + size) (s.outmaxsent + avail c.omax c.oused)
-        let e := imax e off
-        e - off
-      else size
+    let size := clampSize off size s.outmaxsent (avail c.omax c.oused)
     let fin := s.outclosed.isSet && decide (off + size = s.out.stop)
     let shouldSend := decide (size > 0) || s.outopened.shouldSendPTO pto || (fin && s.outclosed.shouldSendPTO pto)
     if !shouldSend then (c, s, w, true) else
@@ -492,9 +496,9 @@ def outLoop : Nat → Conn → Stream → Writer → Int → Bool → Conn × St
       | some data =>
         let e := off + n
         let w := w.put (streamFrameCost s.id off n) (.stream s.id off data wireFin) (.stream s.id off e wireFin)
-        let (c, s) :=
-          if e > s.outmaxsent then ({ c with oused := consume c.oused (e - s.outmaxsent) }, { s with outmaxsent := e })
-          else (c, s)
+        let ch := charge c.oused s.outmaxsent e
+        let c := { c with oused := ch.1 }
+        let s := { s with outmaxsent := ch.2 }
         let s := { s with outunsent := Rangeset.sub s.outunsent off e }
         let s := frameOpensStream s pnum
         let s := if fin then { s with outclosed := .sent pnum } else s
